@@ -74,7 +74,13 @@ func (s *Stream) Recv(msg any) error {
 			return Errorf("Message is too big. Max allowed size is %d bytes", s.max)
 		}
 		if read >= need {
-			return UnmarshalTTLV(buf[:need], msg)
+			err := UnmarshalTTLV(buf[:need], msg)
+			if err != nil && !IsErrEncoding(err) {
+				// The message was received completely but cannot be decoded: report it as an
+				// encoding error whatever the decoder returned, it is not an I/O error.
+				err = ErrEncoding{cause: err}
+			}
+			return err
 		}
 		if err != nil {
 			return err
